@@ -291,3 +291,25 @@ func copyFile(src, dst string) error {
 	}
 	return os.WriteFile(dst, b, 0644)
 }
+
+func mkdirs(ds ...string) {
+	for _, d := range ds {
+		os.MkdirAll(d, 0755)
+	}
+}
+
+func writeFile(p, content string) { os.WriteFile(p, []byte(content), 0644) }
+
+func removeAll(p string) {
+	os.Chdir("/")
+	os.RemoveAll(p)
+}
+
+func listDir(d string) []string {
+	es, _ := os.ReadDir(d)
+	out := []string{}
+	for _, e := range es {
+		out = append(out, e.Name())
+	}
+	return out
+}
